@@ -62,6 +62,7 @@ def run_sym(modname, fnname, timeout, twin_only=False):
     from crosshair.statespace import VerificationStatus, MessageType
 
     mod, ob = find_ob(modname, fnname)
+    _patch_crosshair()
 
     stats = {"queries": 0, "solver_s": 0.0}
     orig_check = z3.Solver.check
@@ -141,6 +142,11 @@ def run_sym(modname, fnname, timeout, twin_only=False):
             res["kind"] = ",".join(sorted(set(m.state.name for m in msgs)))
             if "args" in captured:
                 res["cex_args"] = captured["args"]
+            try:
+                from harness.common import NOTES
+                res["notes"] = list(NOTES)
+            except Exception:
+                pass
             tbs = [m.traceback for m in msgs if m.traceback]
             if tbs:
                 res["traceback"] = tbs[0][-1500:]
@@ -158,6 +164,27 @@ def run_sym(modname, fnname, timeout, twin_only=False):
     main = analyse(False, timeout)
     out.update(main)
     return out
+
+
+def _patch_crosshair():
+    """Work-around for a CrossHair 0.0.110 defect: a dict literal with more than 17 entries whose keys are
+    Enum members is built with MAP_ADD + DICT_UPDATE; MapAddInterceptor de-optimises the dict into its own
+    SimpleDict because an Enum member is not in its list of atomic types, and the interpreter's DICT_UPDATE
+    then fails with SystemError.  Enum members are concrete hashable objects: let the interpreter handle them."""
+    import enum
+    import crosshair.opcode_intercept as oi
+    from crosshair.tracers import frame_stack_read
+    if getattr(oi.MapAddInterceptor, "_verif_patched", False):
+        return
+    orig = oi.MapAddInterceptor.trace_op
+
+    def trace_op(self, frame, codeobj, codenum):
+        key = frame_stack_read(frame, -2)
+        if isinstance(key, enum.Enum):
+            return
+        return orig(self, frame, codeobj, codenum)
+    oi.MapAddInterceptor.trace_op = trace_op
+    oi.MapAddInterceptor._verif_patched = True
 
 
 def trace_functions(fn, kwargs, repo_mw):
